@@ -101,8 +101,9 @@ CLAIMED.update({
     'C12': ('proof', 'upload_buffer framing (every byte once, frames <= 31 bytes), write_flash retry/abort for every pattern of lost / stray / '
             'negative replies over the 6 attempts, _internal_flash against the contracts of both (refusal before anything is sent, pages in '
             'range and below the flash size, exact page content) and end-to-end on a ghost target.',
-            'Image lengths / geometries enumerated or small-symbolic (bounded, stated per contract; for-loop invariants are not supported by '
-            'the engine); peer load-buffer / write-flash semantics assumed; little-endian host.', '5 C12'),
+            'upload_buffer and the page loop of _internal_flash are ALSO proved by loop invariant for any buffer / image length (page size '
+            'enumerated, mode R for int(a/b)); the remaining contracts enumerate lengths / geometries (bounded, stated per contract); '
+            'peer load-buffer / write-flash semantics assumed; little-endian host.', '5 C12'),
 })
 
 NOT_APPLICABLE = {
